@@ -92,13 +92,77 @@ def _index_exit_value(f, ps):
     return out
 
 
+AUX = {}        # (function name, loop head) -> ids of loop-carried helper integers whose finite orbit is enumerated (see _aux_orbit)
+
+
+def _aux_orbit(f, klen, word_args, ex, ps):
+    """a data loop that carries, besides its cursors and the remaining length, a helper integer that starts at a constant and whose value
+    at the next visit of the head is again a constant on every iteration path (a fill index of a staging buffer that is - or is not -
+    reset per round): its values form a finite orbit {v0, v1, ...}, each of them reachable.  The generic iteration is evaluated once per
+    orbit value.  Returns (ex, ps) with the iteration paths of all orbit values, or None when the function has no such integer."""
+    heads = sorted({p.end[1] for p in ps if p.end[0] in ("loop-entry", "backedge")})
+    for h in heads:
+        AUX.pop((f.name, h), None)
+    found = None
+    for h in heads:
+        ptrs, ints = hd_syms(f, h)
+        if len(ints) < 2 or not ptrs:
+            continue
+        ent = [p for p in ps if p.end[0] == "loop-entry" and p.end[1] == h]
+        if not ent:
+            continue
+        aux = []
+        for I in ints:
+            vals = {repr(p.env.get(("init", I.id))) for p in ent}
+            v0 = ent[0].env.get(("init", I.id))
+            if len(vals) == 1 and v0 is not None and not is_word(v0) and v0.const() is not None:
+                aux.append((I, v0.const()))
+        if len(aux) != 1 or len(ints) - len(aux) != 1 or found is not None:
+            return None
+        found = (h, aux[0][0], aux[0][1])
+    if found is None:
+        return None
+    h, I, v0 = found
+    orbit, todo, runs = [], [v0], {}
+    while todo:
+        v = todo.pop(0)
+        if v in orbit:
+            continue
+        if len(orbit) >= 6:
+            raise Broken("%s: the helper integer carried by the data loop takes more than 6 values: not enumerated" % f.name)
+        orbit.append(v)
+        ex_v = irx.Exec(f, mode.Handler(klen), mode.havoc_state(klen // 32), word_args=word_args, auto=True, unrotate=True, split_max=32, head_consts={I.id: v})
+        ps_v = ex_v.run()
+        runs[v] = (ex_v, ps_v)
+        for p in ps_v:
+            if p.end[0] == "backedge" and p.end[1] == h and p.blocks and p.blocks[0] == h:
+                b_ = p.env.get(("back", I.id))
+                if b_ is None or is_word(b_) or ex_v.subst(p, b_).const() is None:
+                    raise Broken("%s: the helper integer carried by the data loop does not come back as a constant (%s): not enumerated" % (f.name, b_))
+                todo.append(ex_v.subst(p, b_).const())
+    AUX[(f.name, h)] = {I.id}
+    ex0, ps0 = runs[v0]
+    out = [p for p in ps0 if not (p.blocks and p.blocks[0] == h)]
+    for v in orbit:
+        for p in runs[v][1]:
+            if p.blocks and p.blocks[0] == h:
+                p.aux = (I.id, v)
+                out.append(p)
+    ex0.aux_orbit = (h, I.id, orbit)
+    return ex0, out
+
+
 def run_paths(f, klen, word_args=()):
-    ex = irx.Exec(f, mode.Handler(klen), mode.havoc_state(klen // 32), word_args=word_args, auto=True, unrotate=True)
+    ex = irx.Exec(f, mode.Handler(klen), mode.havoc_state(klen // 32), word_args=word_args, auto=True, unrotate=True, split_max=32)
     ps = ex.run()
     eq = _index_exit_value(f, ps)
     if eq:
-        ex = irx.Exec(f, mode.Handler(klen), mode.havoc_state(klen // 32), word_args=word_args, auto=True, exit_eq=eq, unrotate=True)
+        ex = irx.Exec(f, mode.Handler(klen), mode.havoc_state(klen // 32), word_args=word_args, auto=True, exit_eq=eq, unrotate=True, split_max=32)
         ps = ex.run()
+    else:
+        ao = _aux_orbit(f, klen, word_args, ex, ps)
+        if ao is not None:
+            ex, ps = ao
     for p in ps:
         if any(e[0] == "cond-data" for e in p.events):
             raise Broken("%s branches on data bits: path summaries are not comparable with the reference (constant-time rule C07 decides such code)" % f.name)
@@ -124,6 +188,8 @@ def hd_syms(f, header):
         I = f.insts[iid]
         if I.op != "phi":
             break
+        if I.id in AUX.get((f.name, header), ()):
+            continue
         (ptrs if (I.get("ty") or "").endswith("*") else ints).append(I)
     return ptrs, ints
 
@@ -152,7 +218,7 @@ def word_steps(r):
     """the 4-byte steps of a segment of r bytes (r < 4: one partial step)"""
     if r < 4:
         return [(0, r)] if r else []
-    return [(4 * k, 4) for k in range(r // 4)]
+    return [(4 * k, 4) for k in range(r // 4)] + ([(4 * (r // 4), r % 4)] if r % 4 else [])
 
 
 def main_loop(f, ps):
@@ -460,6 +526,7 @@ def check_cipher(ck, mod, f, label, rulemap):
     dom_msg = 0x50 if kind == "aead" else 0xD0
     n = 0
     seen = set()
+    iter_sizes = {}
     in_cur = out_cur = None
     first_setup_dom = 0x10 if kind == "aead" else (0x90 if enc else 0xB0)
     for p in ps:
@@ -641,7 +708,7 @@ def check_cipher(ck, mod, f, label, rulemap):
                 raise Broken("%s: an iteration of the data loop consumes %d bytes: chunked processing beyond 64 words per iteration is not analysed" % (f.name, -adv))
             r = -adv if adv is not None and adv < 0 else 4
             name = "block" if r == 4 and len(heads) == 1 else "block%d" % r
-            okg = any(cc[0] == "uge" and cc[2] and cc[1] == Lf({rem: 1, 1: -r}) for cc in p.conds)
+            okg = any(cc[0] == "uge" and cc[2] and cc[1] == Lf({rem: 1, 1: -r}) for cc in p.conds) or ex._range(p, Lf({rem: 1}))[0] >= r
             c.ob(okg, "ADVANCE", "guard" if name == "block" else "guard(%s)" % name, "%d bytes are processed only when at least %d remain" % (r, r), "loop guard is not 'remaining >= %d'" % r)
             c.ob(bi == Lf({in_cur: 1, 1: r}) and bo == Lf({out_cur: 1, 1: r}) and bn == Lf({rem: 1, 1: -r}), "ADVANCE", "advance" if name == "block" else "advance(%s)" % name,
                  "both cursors += %d and remaining -= %d per iteration" % (r, r), "after an iteration: input cursor %s, output cursor %s, remaining %s (lock-step broken)" % (bi, bo, bn))
@@ -655,6 +722,10 @@ def check_cipher(ck, mod, f, label, rulemap):
             # make the chosen residue visible to the term comparison (shift amounts, masks and helper loops depend on it)
             pass
         seen.add(r if p.end[0] != "backedge" else ("iter", h0))
+        if p.end[0] == "backedge":
+            iter_sizes[h0] = r
+        if getattr(p, "aux", None) is not None:
+            name = "%s{carried index = %d}" % (name, p.aux[1])      # one evaluation per value of the helper integer's orbit
         outs = mode.outs_of(p)
         # a store that writes back the value the location already holds (x ^= 0 ...) changes nothing the round trip or the
         # construction can observe; that it is a write at all (const input buffer) is C06's R-C06-CONST
@@ -831,8 +902,11 @@ def check_cipher(ck, mod, f, label, rulemap):
             n += 2
         c.ob(not problems(p), "RT", "%s-clean" % name, "no unknown access", "unexpected accesses: %s" % problems(p)[:2])
         n += 1
-    if seen != {0, 1, 2, 3} | {("iter", h_) for h_ in heads}:
-        raise Broken("%s: the path classes found (%s) are not the residues 0..3 plus one generic iteration per data loop: unrecognised shape" % (f.name, sorted(seen, key=repr)))
+    # the left-over classes are the lengths below the smallest amount an iteration consumes (4 for a word loop; 32 for a loop that
+    # works through a 32-byte staging buffer and handles the rest in its last, shorter round)
+    rmin = min(iter_sizes.values()) if iter_sizes else 4
+    if seen != set(range(rmin)) | {("iter", h_) for h_ in heads}:
+        raise Broken("%s: the path classes found (%s) are not the left-over lengths below the iteration size plus one generic iteration per data loop: unrecognised shape" % (f.name, sorted(seen, key=repr)))
     c.ob(True, "ADVANCE", "classes", "all residues 0..3 and the generic iteration of every data loop are handled", "")
     c.flush()
     return n + 1
